@@ -11,7 +11,7 @@ PARAGRAPH_BREAK_PATTERN: Pattern[str] = re.compile(r"\n\s*\n")
 # Also as a special case allows quotes to start after an em dash (but not other punctuation
 # as this is more likely to be code).
 QUOTE_PATTERN: Pattern[str] = re.compile(
-    r'(^|\s|—)(?:"([^"\u201c\u201d]*)"|\'([^\'\u2018\u2019]*)\')(\s|$|\.|,|;|:|\?|!|—|\))',
+    r'(^|\s|—)(?:"([^"\u201c\u201d]*)"|\'([^\'\u2018\u2019]*)\')(?=\s|$|\.|,|;|:|\?|!|—|\))',
     re.MULTILINE,
 )
 
@@ -34,7 +34,9 @@ def _apply_smart_quotes_to_text(text: str) -> str:
         prefix = match.group(1)
         double_content = match.group(2)  # Content of double quotes
         single_content = match.group(3)  # Content of single quotes
-        suffix = match.group(4)
+        # The following character is only looked at, not consumed, so that it can also be the
+        # whitespace before the next quoted phrase (as in `"a" "b"`).
+        suffix = ""
 
         # Check for paragraph breaks in the content
         content = double_content if double_content is not None else single_content
